@@ -15,6 +15,7 @@ import PyttbModel.Lemmas.KruskalServices
 import PyttbModel.Lemmas.KruskalVec
 import PyttbModel.Lemmas.KruskalScore
 import PyttbModel.Lemmas.KruskalEqual
+import PyttbModel.Lemmas.KruskalSignsForm
 namespace Pyttb
 
 open Ktensor
@@ -153,6 +154,12 @@ theorem C08_fixsigns_denote (K : Ktensor α) :
       ∀ i : List Nat, i.length = K.factors.length → (fixsigns K).get i = K.get i :=
   let r := fixsigns_reparam K
   ⟨r.ncomp, r.shape, r.get⟩
+
+/-- Normal form of `fixsigns()`: `negModes K r` lists the modes whose column `r` has a negative
+entry of largest magnitude (first such entry, as `np.argmax`); after the call their number is
+the original number modulo 2 — none if it was even, exactly one if it was odd. -/
+theorem C08_fixsigns_form (K : Ktensor α) (r : Nat) (hr : r < K.ncomp) :
+    (negModes (fixsigns K) r).length = (negModes K r).length % 2 := fixsigns_form K r hr
 
 /-- `fixsigns(other)` (the code after 13c8da4: the number of flipped columns per component is
 the number of negatively correlated modes, plus or minus one when that number is odd — always
